@@ -159,6 +159,7 @@ type FX struct {
 	depth  int
 	unsupported []string
 	inputs map[string]string
+	ghostUsed bool // some contract clause evaluated for this function mentions a ghost variable
 	usesAx map[string]bool
 	usedAssumed map[string]bool // assumed contracts (externs, trusted functions, trusted-ensures clauses) applied at call sites
 	assumeSafe bool // do not emit safe obligations (used for refinement-only runs)
